@@ -649,3 +649,8 @@ mod tests {
         );
     }
 }
+
+#[cfg(all(test, lumina_verif))]
+mod verif_native {
+    include!(concat!(env!("LUMINA_VERIF_DIR"), "/native/node/ptrack.rs"));
+}
